@@ -95,12 +95,13 @@ func (c c11) Run(ctx *core.Ctx) error {
 	maxK := 3
 	for k := 1; k <= maxK; k++ {
 		for f := 0; f < 27; f++ {
-			cases = append(cases, core.J(c11Case{K: k, First: f}))
+			cases = append(cases, core.J(c11Case{K: k, First: f, NoPairs: k == 3 && ctx.Tier != "thorough"}))
 		}
 	}
 	ctx.Ev.Level = "fault_enumeration"
 	ctx.Ev.Rule = "every list of k tables over {\"\",a,b} x {absent,value,tombstone} (as C08) x operation in {Merge (key-disjoint lists), MergeCompact with each exported reduction}; faults: every input iterator failing at every Next position (0..len, transient and permanent) and the output writer failing at every WriteNext position - all single faults and all pairs; oracle: the operation returns an error, or its recorded output equals the fault-free output. distinct = (list, operation, fault set); non-trivial = every case (each injects at least one fault)"
 	ctx.Ev.Bounds["max_tables"] = maxK
+	ctx.Ev.Bounds["fault_pairs_up_to_tables"] = map[bool]int{false: 2, true: 3}[ctx.Tier == "thorough"]
 	ctx.Ev.Assume = []string{"component half only: faults are injected at the iterator / stream-writer interfaces the merger takes; flush and compaction at system level are covered by the syscall fault injector"}
 	rs := ctx.Pmap(cases)
 	ctx.Fold(rs, cases)
@@ -229,7 +230,7 @@ func (c c11) checkList(list []int, cs c11Case, r *core.Result) {
 		} else {
 			for i := range fl {
 				sets = append(sets, []c11Flt{fl[i]})
-				for j := i + 1; j < len(fl); j++ {
+				for j := i + 1; j < len(fl) && !cs.NoPairs; j++ {
 					if fl[i].Kind == fl[j].Kind && fl[i].In == fl[j].In {
 						continue // one fault per iterator / writer
 					}
